@@ -5,6 +5,7 @@ import os
 import random
 import re
 import shutil
+import zlib
 
 import lib
 from props import fsx
@@ -19,7 +20,7 @@ MODEL = ('ExC13', 'c13_main.ml')
 MONITOR = ('MonC13', 'c13_mon_main.ml')
 CASE_TIMEOUT = 120
 SECS = ['lua', 'gfx', 'gff', 'map', 'sfx', 'music']
-RULE = ('case = one `p8tool build` command line run by pico8.tool.main in a fresh sandbox directory: for each of the six '
+RULE = ('case = one `p8tool build` command line run by pico8.tool.main in a sandbox directory (in one case out of two the same command line was run there before with other carts under the source names and a throw-away OUT, so every source path has been seen by the process with other contents): for each of the six '
         'sections one of {unspecified, --X <.p8 source>, --X <.p8.png source>, --empty-X, (lua) --lua <.lua file>} or an '
         'unusable form {--X with --empty-X, missing file, wrong extension, unreadable cart}; OUT in {absent, existing .p8 '
         'with label section, existing .p8 without, existing .p8.png with its own label picture, unreadable} x OUT name '
@@ -569,6 +570,29 @@ def run_impl(case):
             except BaseException as e:  # noqa
                 rec['raised'] = _err(e)
                 raise
+        # non-fresh paths (round s11): in one case out of two the same command line is first run in this very directory
+        # with OTHER carts stored under the source names and a throw-away OUT; then the real sources are put in place.
+        # Whatever the process remembers about a path (a cache of parsed source carts keyed by file name) is then stale.
+        srcs = [n for n in present if n != out]
+        if srcs and zlib.crc32(' '.join(argv).encode()) % 2 == 0:
+            for n in srcs:
+                ext = '.p8.png' if n.endswith('.p8.png') else os.path.splitext(n)[1]
+                alts = sorted(m for m in pool.entries if m != n and m.endswith(ext) and (ext != '.p8' or not m.endswith('.p8.png'))
+                              and os.path.isfile(pool.path(m)))
+                if alts:
+                    shutil.copyfile(pool.path(alts[zlib.crc32(n.encode()) % len(alts)]), os.path.join(sb, n))
+            prime_out = 'zzprime' + ('.p8.png' if out.endswith('.p8.png') else '.p8')
+            try:
+                with fsx.cwd(sb), fsx.quiet():
+                    tool.main([prime_out if a == out else a for a in argv])
+            except BaseException:  # noqa
+                pass
+            try:
+                os.remove(os.path.join(sb, prime_out))
+            except OSError:
+                pass
+            for n in srcs:
+                shutil.copyfile(pool.path(present[n]), os.path.join(sb, n))
         rc, raised, raised_full = None, None, None
         with fsx.cwd(sb), fsx.quiet() as buf, fsx.TraceRecorder(root=sb) as tr:
             p8file.to_file = w_to_file
